@@ -164,7 +164,8 @@ SCHED_WINIT = dict(
     params={"rank": INT, "num_workers": INT, "batch_size": TOpt(INT), "dataset_len": TOpt(INT), "world_size": TOpt(INT),
             "drop_last": TOpt(BOOL), "epochs": TOpt(INT), "updates": TOpt(INT), "samples": TOpt(INT)},
     asserts={k: "reject" for k in range(12)}, raises=("AssertionError", "NotImplementedError"),
-    requires=["implies(batch_size is not None, val(batch_size) >= 1)", "implies(world_size is not None, val(world_size) >= 1)",
+    requires=["num_workers >= 1 and 0 <= rank",
+              "implies(batch_size is not None, val(batch_size) >= 1)", "implies(world_size is not None, val(world_size) >= 1)",
               "implies(dataset_len is not None, val(dataset_len) >= 0)"],
     ensures=[
         "self.rank == rank and self.num_workers == num_workers and self.batch_size == batch_size",
@@ -178,5 +179,15 @@ SCHED_WINIT = dict(
     ],
 )
 
-CONTRACTS = [SCHED_WINIT, COLOR_JITTER, BLUR_PIL, BLUR_TV, SOLARIZE_FLOAT, SOLARIZE_INT, GRAYSCALE, ROTATION, MAGNITUDE] + FORWARDS + \
+BASE_WINIT = dict(
+    target=f"{T}/base/kd_transform.py::KDTransform.worker_init_fn",
+    self_class=f"{T}/base/kd_scheduled_transform.py::KDScheduledTransform", self=SCHED_SELF,
+    params={"rank": INT}, ghost=dict(FWD_GHOST, g_rng_set=(TSeq(BOOL, mutable=False), None), g_rng=(TSeq(VAL, mutable=False), None)),
+    requires=["0 <= rank"], raises=("AssertionError", "NotImplementedError"),
+    # without a DataLoader worker the transform is its own single worker: the hook must hand num_workers >= 1 on
+    # (call-site obligation: the precondition of _worker_init_fn)
+    ensures=[],
+)
+
+CONTRACTS = [BASE_WINIT, SCHED_WINIT, COLOR_JITTER, BLUR_PIL, BLUR_TV, SOLARIZE_FLOAT, SOLARIZE_INT, GRAYSCALE, ROTATION, MAGNITUDE] + FORWARDS + \
             [COMPOSE, BASE, SCHED_CALL]
